@@ -407,6 +407,11 @@ def evaluate__abs(self: XPathFunction, context: ta.ContextType = None) \
         context = self.context
 
     item = self.get_argument(context)
+    if isinstance(item, XPathNode) and item.is_typed:
+        item = self.data_value(item)  # the typed value of a schema-typed node
+        if isinstance(item, UntypedAtomic):
+            item = self.cast_to_double(item.value)
+
     if item is None:
         return []
     elif isinstance(item, float) and math.isnan(item):
